@@ -44,8 +44,8 @@ CLAIMED = {
             "property-based testing (rapid): model-based history invariants + report-vs-snapshot oracle", "The sequence is generated up front as one shrinkable value (equivalent to rapid's state-machine mode, but replayable as a pure function)."),
     "C10": ("Generated batches of 2..12 requests (duplicates, rejected ones, heuristics with generated level series) run by 1..4 goroutines each, 3 rounds, against the in-process handler of a -race build with GOMAXPROCS varied over shards; thorough also against a -race build of the real server process. Every concurrent response must equal the response of the same request decided alone; any race report or process death is a violation with the batch as replay.",
             "property-based testing (rapid) of generated batches under the Go race detector", "Schedules are sampled, not enumerated; the race detector reports conflicting unsynchronised accesses on executed paths independent of timing. A data-race-free but order-dependent logic race is seen only if a sampled interleaving exposes it."),
-    "C20": ("Four-layer hostile generator (valid, constraint-level with 30 single-constraint operators, type-level subtree mutation, byte-level) against the in-process handler (watchdog, lowered max stack, current case kept on tmpfs so that a fatal crash becomes a replay) and the real server process (liveness after every request, known-good request re-checked); response-shape oracle, constraint mutants must be 400, unknown-name errors must list the registry, GET /api/preferenceFunctions schema per method.",
-            "property-based testing / fuzzing (rapid): structured hostile inputs + response-shape oracle + process liveness", "Bodies bounded (<= 64 KiB, small problems); resource exhaustion by size is out of scope (DESIGN.md §8)."),
+    "C20": ("Four-layer hostile generator (valid, constraint-level with 30 single-constraint operators, type-level subtree mutation, byte-level) against the in-process handler (watchdog, lowered max stack, current case kept on tmpfs so that a fatal crash becomes a replay) and the real server process (liveness after every request, known-good request re-checked); response-shape oracle, constraint mutants must be 400, unknown-name errors must list the registry, GET /api/preferenceFunctions schema per method with resolvable $refs; the echoed request of a 400 equals the request sent; hostile class of small bodies with 20-70 Choquet criteria under an 8 GiB address-space limit.",
+            "property-based testing / fuzzing (rapid): structured hostile inputs + response-shape oracle + process liveness", "Bodies bounded (<= 64 KiB, small problems); resource exhaustion by inherently exponential VALID requests is out of scope (DESIGN.md §8)."),
 }
 
 NOT_YET = "check not built yet in this session (work in progress; to be claimed)"
@@ -72,14 +72,14 @@ def main():
         "setup_cmd": "./setup.sh",
         "hooks": {
             "guard": "verif",
-            "enable": "no source hooks are needed: the harness is compiled as package main together with a fresh copy of /repo/httpClient/*.go and `replace lib => /repo/lib`; the build tag `verif` is reserved and unused",
+            "enable": "no source hooks are needed: the harness is compiled as the external test package (main_test, plus one export_test.go of package main) of a fresh copy of /repo/httpClient/*.go and `replace lib => /repo/lib`; the build tag `verif` is reserved and unused",
             "baseline_off_cmd": "for m in $(cat /w/out/gomods.txt); do MF=$(cd /repo/$m && . /w/out/goenv.sh && gomodflag); (cd /repo/$m && go test $MF -json -vet=off -count=1 -timeout 25m ./...); done",
             "source_commits": [],
             "add_only": True,
         },
         "engines": [{
             "name": "rapid-harness", "path": "/verif/harness", "serves_properties": sorted(CLAIMED),
-            "kind_free_text": "Go test binary (package main, built together with the service's own main.go, lib replaced by /repo/lib) driven by pgregory.net/rapid v1.3.0; driver /verif/check shards it over OS processes, merges statistics into evidence files and prints VIOLATION / KNOWN-FINDING lines",
+            "kind_free_text": "Go test binary (external test package of the service's own main.go, lib replaced by /repo/lib) driven by pgregory.net/rapid v1.3.0; driver /verif/check shards it over OS processes, merges statistics into evidence files and prints VIOLATION / KNOWN-FINDING lines",
         }],
         "checks": checks,
         "notes": "See DESIGN.md. Exit codes: 0 held, 1 violation (VIOLATION line + replay file), 2 inconclusive (build failure, time-out, vacuity health rule). known_findings.json lists genuine defects (open = recorded, fixed = repaired by a fix: commit in /repo).",
